@@ -3,12 +3,13 @@
 from vlib import CaseT, f32bits, bits_f32, hexs, unhex
 
 NAMES = ["chr1", "chr2", "chr10", "chrX", "c", "chrUn_gl000220", "scaffold_7", "chrM", "A", "chr2L"]
+MORE_NAMES = NAMES + ["chr3", "chr4", "chr11", "chrY", "b", "Zv9_NA1", "scaffold_12", "B", "chr3R", "d", "chr21", "e5", "k", "chr22"]
 INT_VALUES = [1, 2, 3, 5, 7, -1, -2, 4, 8, 0]
 
 
 def pick_chroms(rng, n, sorted_names=True):
     names = []
-    pool = list(NAMES)
+    pool = list(NAMES if n <= len(NAMES) else MORE_NAMES)
     for _ in range(n):
         i = rng.below(len(pool))
         names.append(pool.pop(i))
